@@ -427,11 +427,9 @@ def gen_nested_quantifiers(rng):
         inner = [rng.choice(["and", "or"]), inner, about_y] if rng.random() < 0.7 else about_y
     cond = [rng.choice(["forall", "exists"]), "x", [rng.choice(["forall", "exists"]), "x2", inner]]
     binder = ["cmp", ">=", ["attr", ["var", "y"], "a"], ["lit", 0]]
+    if rng.random() < 0.3:
+        cond = ["not", cond]
     if rng.random() < 0.7:
-        # (negated only where y is bound: a negated conjunction inside a quantified condition that is decided by its
-        # first conjunct leaves y unbound, and nothing enumerates it afterwards)
-        if rng.random() < 0.4:
-            cond = ["not", cond]
         cond = ["and", binder, cond]
     return {"world": world, "vars": vars_, "derived": [], "cond": cond, "select": [["var", "y"]],
             "mode": rng.choice(["entity", "set_of"])}
